@@ -54,6 +54,11 @@ def rand_text(rng):
         if rng.random() < 0.5:
             return c * n
         return "".join(rng.choice(["a", "Z", c, c, "\u0416"]) for _ in range(n))
+    if x < 0.06:
+        # texts that look like something a well-meaning implementation might "normalise": literal
+        # backslash escapes, byte order marks, percent escapes, JSON with escaped quotes
+        frag = ["\\u00e9", "\\u0041", "\\ud800", "\\n", "\\\\", "\ufeff", "%41", "&amp;", "\\x41", "\\U0001f600", '\\"', "\r\n", "\x00", " ", "\t"]
+        return "".join(rng.choice(frag + ['{"name":"caf', '"}', "a", "Z"]) for _ in range(rng.randint(1, 8)))
     n = rng.choice([0, 1, 2, 3, 5, 8, 13, 40, 200]) if x < 0.8 else rng.randint(0, 60)
     cls = rng.random()
     out = []
@@ -113,10 +118,11 @@ def unknown_names(sh, fa_fp, algos, rng):
     for name in cands:
         if name in known or name in ("shake_128", "shake_256"):
             continue
-        st, got = guard(fa_fp, rng.choice(["", '"int"', "é"]), name)
-        if st == "ok" or not isinstance(got, ValueError):
-            sh.violation("unknown-algorithm-accepted", "fingerprint(.., %r) -> %s instead of ValueError" % (name, got if st == "ok" else exc_name(got)), {"algorithm": name})
-            return
+        for attempt in (1, 2, 3):  # a name that was refused once stays refused
+            st, got = guard(fa_fp, rng.choice(["", '"int"', "é"]), name)
+            if st == "ok" or not isinstance(got, ValueError):
+                sh.violation("unknown-algorithm-accepted", "fingerprint(.., %r) -> %s instead of ValueError (call %d with that name)" % (name, got if st == "ok" else exc_name(got), attempt), {"algorithm": name})
+                return
         sh.count("unknown_names_rejected")
         sh.case(h64("unknown", name), True)
 
